@@ -633,4 +633,29 @@ theorem rot_hash_ecc (c : CryptoOps) (hl : CryptoLaws c) (cv : Spec.Curve) (ks :
     simp only [hex1, Spec.rotkhV21, Spec.ctrkTable, hkalg]
 
 
+/-! fixed-width big-endian fields -/
+theorem beEnc_zero (n : Nat) : beEnc n 0 = zeros n := by
+  induction n with
+  | zero => simp [beEnc, zeros]
+  | succ n ih =>
+    rw [beEnc]; simp only [Nat.zero_div, ih, Nat.zero_mod]
+    simp [zeros, List.replicate_succ']
+
+theorem beEnc_leading_zeros : ∀ (n x k : Nat), k ≤ n → x < 256 ^ (n - k) → (beEnc n x).take k = zeros k
+  | 0, x, k, hk, _ => by
+    have : k = 0 := by omega
+    subst this; simp [zeros]
+  | n + 1, x, k, hk, hx => by
+    by_cases hkn : k = n + 1
+    · subst hkn
+      have : x = 0 := by simpa using hx
+      subst this
+      rw [beEnc_zero, List.take_of_length_le (by simp)]
+    · have hk' : k ≤ n := by omega
+      have hsub : n + 1 - k = (n - k) + 1 := by omega
+      rw [hsub, Nat.pow_succ] at hx
+      have hd : x / 256 < 256 ^ (n - k) := Nat.div_lt_of_lt_mul (by rw [Nat.mul_comm]; exact hx)
+      rw [beEnc, List.take_append_of_le_length (by rw [beEnc_length']; exact hk')]
+      exact beEnc_leading_zeros n (x / 256) k hk' hd
+
 end SpsdkVerif.Dat
